@@ -219,7 +219,7 @@ func runServerBatchExecution(t *testing.T, seed int64, log *traceLog) {
 			cn := append([]string{}, clients...)
 			sort.Strings(cn)
 			for _, c := range cn {
-				for _, pk := range w.clients[c].Drain() {
+				for _, pk := range w.drainClient(c) {
 					o := w.decodeAtClient(c, pk)
 					switch o["k"] {
 					case "resp":
